@@ -95,7 +95,7 @@ def _case(draw):
         if cfg["preset"] == "zero":
             cfg["enable"] = sorted(set(cfg["enable"]) | {"link", "image", "reference", "escape", "entity"})
     if kind == "seed":
-        return {"kind": kind, "cfg": cfg, "R": gen_defs(d), "D": gen_D(d)}
+        return {"kind": kind, "cfg": cfg, "R": gen_defs(d), "D": gen_D(d), "envtype": d.pick(["dict", "dict", "dict", "UserDict", "ChainMap", "OrderedDict", "custom"])}
     if kind == "book":
         blocks = []
         for _ in range(d.i(1, 6)):
@@ -150,6 +150,50 @@ def _nomap(env):
     return refs, dups
 
 
+def _new_env(kind: str):
+    import collections
+
+    if kind == "UserDict":
+        return collections.UserDict()
+    if kind == "ChainMap":
+        return collections.ChainMap({})
+    if kind == "OrderedDict":
+        return collections.OrderedDict()
+    if kind == "custom":
+        return _Env()
+    return {}
+
+
+class _Env(__import__("collections").abc.MutableMapping):
+    """A minimal caller-made mapping."""
+
+    def __init__(self):
+        self._d = {}
+
+    def __getitem__(self, k):
+        return self._d[k]
+
+    def __setitem__(self, k, v):
+        self._d[k] = v
+
+    def __delitem__(self, k):
+        del self._d[k]
+
+    def __iter__(self):
+        return iter(self._d)
+
+    def __len__(self):
+        return len(self._d)
+
+    def __eq__(self, other):
+        return isinstance(other, _Env) and self._d == other._d
+
+    def __deepcopy__(self, memo):
+        e = _Env()
+        e._d = copy.deepcopy(self._d, memo)
+        return e
+
+
 def check_seed(case, res: Res, md) -> None:
     R, D = case["R"], case["D"]
     if not R.endswith("\n"):
@@ -163,9 +207,19 @@ def check_seed(case, res: Res, md) -> None:
     if nR == 0:
         res.cls.append("seed:R-empty")
         return
+    et = case.get("envtype") or "dict"
+    if et != "dict":
+        # env may be any MutableMapping: the object the caller passes is the one that carries the definitions
+        envT = _new_env(et)
+        md.parse(R, envT)
+        if _nomap(envT) != _nomap(envR):
+            res.fail("seed:env-object-not-updated", f"env of type {et}: after parse(R, env) it holds {_nomap(envT)!r}, a dict env holds {_nomap(envR)!r}"[:600])
+            return
+        envR = envT
+        res.cls.append("seed:env-type:" + et)
     env1 = copy.deepcopy(envR)
     h1 = md.render(D, env1)
-    env2: dict = {}
+    env2 = _new_env(et)
     full = R + "\n" + D
     h2 = md.render(full, env2)
     if h1 != h2:
